@@ -282,9 +282,9 @@ def _corrupt(c, rng):
     """A copy of the case with one expected value changed -> must be rejected by the harness."""
     c = json.loads(json.dumps(c))
     n, nr = len(c["tags"]), len(c["rules"])
-    ways = ["any", "all", "none", "cnt", "out"]
+    ways = ["any", "all", "none", "cnt"]
     if n:
-        ways += ["res"]
+        ways += ["res", "out"]
     if n and nr:
         ways += ["mm"]
         if c["fam"] == "TF":
